@@ -111,6 +111,20 @@ CHECKS = {
         note="Trusted: specifications of the intercepted field functions (C02/C04), is_on_curve (C05), subgroup test = [r]P (C06), T5. Both forms describing the same point follows from the two round trips.",
         tech="LLVM-IR symbolic execution with symbolic bytes (QF_BV) and uninterpreted field operations with instantiated axioms (QF_UFBV) in z3; native replay",
         ref="5/C09"),
+    "C10": dict(
+        cat="proof",
+        text="zp_from_hash over 32 symbolic bytes (bit-vectors): result = (int(h) mod 2^255) mod r < r. get_point_from_x (G1/G2, checked/unchecked) over uninterpreted "
+             "field functions with the sqrt contract: fails iff the residue test is on and legendre(x^3+b) = -1, else returns (x, +-sqrt(x^3+b)) on the curve with "
+             "the requested sign. try_and_increment: loop cut at its header - candidates start, start+1, ... are tried once each, stopping at the first success; "
+             "from_hash: hash_reduce composition. compute_id_from_hash: from_hash then multiplication by G1Affine::cofactor through the 128-bit w-NAF path; ground: "
+             "cofactors equal their formulas in x and cofactor*r is the curve order. Sampling: the rejection loops of Fr::random, Fq::random, PowersOfX::random and "
+             "sample_random_generator are cut (retry independence is checked, not assumed): on exit the value is the masked draw below its modulus; PowersOfX::random: "
+             "every digit < |x|, y = sum c_j|x|^j exactly, y < r, digits -> y injective; random_generator: result = [cofactor]*(curve point), re-tested for identity "
+             "after clearing the cofactor. The random callback is a stub writing exactly n fresh symbolic bytes at an in-bounds pointer.",
+        note="Totality (termination) of try-and-increment and of the rejection loops is outside the claim; uniformity follows from injectivity + rejection (paper step). "
+             "Observation recorded in DESIGN.md: in from_hash the 'greater' choice is constant false (the top bits are masked before hash_reduce looks at them).",
+        tech="LLVM-IR symbolic execution: QF_BV for byte/word code, uninterpreted field functions with instantiated axioms, loop cutting (header cut and retry cut), integer lemmas in z3; native replay",
+        ref="5/C10"),
     "C11": dict(
         cat="proof",
         text="src/wkdibe/api.cpp is executed symbolically from the IR with the group layer replaced by formal discrete logarithms (polynomials in "
@@ -158,6 +172,39 @@ CHECKS = {
              "Trusted: group layer specification, C11 for 'the key for from is well-formed'.",
         tech="LLVM-IR symbolic execution over formal discrete logarithms (D-GRP) with integer-term attribute values; VCs modulo r in z3; native replay",
         ref="5/C14"),
+    "C15": dict(
+        cat="proof",
+        text="Every marshal/unmarshal/length function of WKD-IBE (Params, MasterKey, SecretKey, Ciphertext, Signature, FreeSlot) and LQ-IBE, compressed and uncompressed, "
+             "is executed symbolically from the IR with element encodings as injective tokens (C09's contract) and decode outcomes as free Booleans. z3 proves the "
+             "length functions exact for symbolic l (32 bit), length (64 bit) and first byte: unmarshalled_length(marshalled_length(l,sig)) = l, -1 for every other "
+             "length, injectivity, set_length/get_marshalled_length consistency, no signed overflow. For l = 0..3 (quick) / 0..6 (thorough) x signatures on/off: "
+             "marshal writes exactly the bytes [0, reported length) of an exact-size buffer; the free-slot index is big-endian for all 2^32 values; "
+             "unmarshal(marshal(o)) reproduces every field (checked and unchecked; compressed Params: recomputed pairing = e(g2,g1)); unmarshal returns true iff "
+             "every embedded decode on the path did, and each decode receives the caller's `checked` flag.",
+        note="Bound: slot counts as stated (loops unrolled). Go-side marshalling is out of scope (no Go toolchain). Beyond 2^31 slots the int truncation of unmarshalledLength is outside the claim.",
+        tech="LLVM-IR symbolic execution with token models of the encodings; QF_BV VCs for the length arithmetic and byte order; path exploration over decode outcomes",
+        ref="5/C15"),
+    "C16": dict(
+        cat="proof",
+        text="lqibe setup, keygen, encrypt, decrypt and compute_id_from_hash are executed symbolically from the IR over formal discrete logarithms with the caller's hash "
+             "callback as an uninterpreted recorder: for every 32-byte master key (256-bit vector, unreduced; the scalar-level code runs for real), every 48-byte "
+             "identity hash and every requested length (symbolic 64-bit), sk = [s]Q_id and the record (pointer, length, tokens with offsets: encoded identity, encoded "
+             "ciphertext point, pairing value) that decrypt hands to the hash equals encrypt's; negatives (generic-group sense): another identity, another master "
+             "scalar mod r, or an altered ciphertext makes 'all hashed components equal' unsatisfiable; the hash buffer struct has no padding and is hashed entirely.",
+        note="Trusted: group layer specification, injectivity of the encodings (C09), independence of hash-derived points (formal symbols). Assumes s not congruent to 0 mod r for the negative statements.",
+        tech="LLVM-IR symbolic execution over formal discrete logarithms (D-GRP) with bit-vector scalars; uninterpreted hash recorder; z3 validity / unsatisfiability queries; native replay",
+        ref="5/C16"),
+    "C17": dict(
+        cat="proof",
+        text="Part 1 (parsers of untrusted bytes): every *_unmarshalled_length / set_length / unmarshal of both schemes and the g1/g2/gt unmarshal wrappers, both encodings, "
+             "checked and unchecked, is executed symbolically on a buffer of SYMBOLIC length n in [1, 2^20], base alignment 1 and arbitrary (lazily symbolic) contents: "
+             "every buffer read is a solver-checked bound against n, every write stays inside the exact-size destination object / slot array sized from the reported l "
+             "(l enumerated -1, 0..8 quick / ..12 thorough), every access respects the alignment the IR declares given a 1-aligned buffer, reads of uninitialised bytes "
+             "are flagged, and an accepted object re-marshals into exactly n bytes. Part 2 (all other API calls free of UB) is covered only to the extent that the same "
+             "interpreter assertions (bounds, alignment, uninitialised reads, shift ranges, nsw/nuw, restrict overlap) are active in the runs of all other properties.",
+        note="x86-64 configuration only (the ARM targets' stricter alignment rules are the reason the alignment assertion matters; their IR is not re-run). Go bindings out of scope. No sanitizer run is the deciding step (UBSan is used only to replay).",
+        tech="LLVM-IR symbolic execution with a symbolic-length buffer: solver-checked bounds/alignment assertions on every access; native replay with -fsanitize=alignment",
+        ref="5/C17"),
     "C18": dict(
         cat="proof",
         text="Aliasing patterns permitted by each signature are enumerated from the IR (non-noalias parameters of the output's type); every "
